@@ -1,6 +1,9 @@
 ---------------------------- MODULE OverloadsEmit ----------------------------
-(* Emission wrapper: prints every completed case (overload set + call) as one JSON line so that   *)
-(* the harness can replay it through the real checker.                                            *)
+(* Emission wrapper: prints completed cases (overload set + call) as one JSON line each so that   *)
+(* the harness can replay them through the real checker.  EmitOneIn = 1 prints every case; a      *)
+(* larger value prints a uniform random sample of one case in EmitOneIn (the invariants are still *)
+(* checked on every state).                                                                       *)
 EXTENDS Overloads, Json
-EmitDone == stage = "done" => PrintT(ToJson(case))
+CONSTANT EmitOneIn
+EmitDone == stage = "done" => (RandomElement(1..EmitOneIn) = 1 => PrintT(ToJson(case)))
 =============================================================================
